@@ -18,6 +18,8 @@ class SleepBlocked(Exception):
 
 
 def independent(f1, f2):
+    if ("*",) in f1 or ("*",) in f2:
+        return False
     for k, m in f1.items():
         m2 = f2.get(k)
         if m2 is not None and (m == "w" or m2 == "w"):
@@ -69,7 +71,7 @@ class Exec:
             d, meta = self.prefix[self.pos]
             meta = meta or []
         else:
-            cands = [i for i in range(n) if names[i] not in self.sleep]
+            cands = [i for i in range(n) if names[i] not in self.sleep or getattr(self, "no_por", False)]
             if not cands:
                 raise SleepBlocked()
             d, meta = cands[0], []
@@ -207,7 +209,7 @@ class Stats:
         self.max_decisions = 0
 
 
-def explore(run_path, max_paths=20000, time_budget=None, max_steps=400000, on_path=None, fixed_inputs=None):
+def explore(run_path, max_paths=20000, time_budget=None, max_steps=400000, on_path=None, fixed_inputs=None, por=True):
     """run_path(ex) executes one path.  Returns (violations, unsupported, stats)."""
     st = Stats()
     stack = [[]]
